@@ -1631,8 +1631,8 @@ pub fn run(report: &Report) -> i32 {
     report.assume("the first connection of every world is fault free; idle timeouts are disabled; Retry tokens do not expire; pad_to_mtu is off and zero-length server CIDs are not combined with Retry (known findings of C02/C09)");
     report.assume("after a rejection the application restarts its whole workload from scratch, as it would on a fresh connection; the twin world runs the same workload without a ticket");
     let rule = "proptest-generated two-connection worlds (remembered vs new limits x early workload x Retry x late accept x per-datagram fault streams on the early and handshake datagrams x driver schedules); non-trivial = the client reported Connected AND at least two 0-RTT packets were sent AND (an early or handshake datagram was dropped, duplicated or delayed, or a Retry occurred, or the Incoming was held before accept); distinct by scenario hash";
-    run_prop(report, "c17a", &format!("server accepts early data: {rule}"), || arb_z(Policy::Accept), report.cases(12_000, 250_000), case);
-    run_prop(report, "c17r", &format!("server rejects early data (each case also runs the twin without an early attempt): {rule}"), || arb_z(Policy::Reject), report.cases(7_000, 120_000), case);
+    run_prop(report, "c17a", &format!("server accepts early data: {rule}"), || arb_z(Policy::Accept), report.cases(30_000, 500_000), case);
+    run_prop(report, "c17r", &format!("server rejects early data (each case also runs the twin without an early attempt): {rule}"), || arb_z(Policy::Reject), report.cases(18_000, 250_000), case);
     run_prop(
         report,
         "c17p",
